@@ -204,6 +204,16 @@ def _eval(batch_file: str, out_file: str) -> int:
                     {"definition": clean, "version": v, "error": traceback.format_exc()[-2000:]})
                 continue
             live = {k: c for k, c in vars(mod).items() if isinstance(c, type) and c.__module__ == m.module and hasattr(c, "__dataclass_fields__")}
+            try:
+                import ast as _ast
+
+                names = [n.name for n in _ast.parse(open(mod.__file__).read()).body if isinstance(n, _ast.ClassDef)]
+                dup = sorted({x for x in names if names.count(x) > 1})
+                if dup:
+                    bad("classes", "class-defined-twice", f"{where}: the generated module defines {dup} more than once (one class per structure)", {"definition": clean, "version": v})
+                    continue
+            except OSError:
+                pass
             if set(live) != set(m.classes):
                 bad("classes", "class-set", f"{where}: generated classes {sorted(live)} != structures visible in v{v} {sorted(m.classes)}", {"definition": clean, "version": v})
                 continue
